@@ -6,7 +6,8 @@ EDIT_WEIGHTS = [('DeleteVerts', 5), ('AddNode', 3), ('DeleteNode', 1), ('DeleteS
                 ('AddShape', 2), ('CalcNormals', 1), ('CalcTangents', 1), ('InvertUVs', 1), ('UpdateSkinPartitions', 2), ('DeleteSkinning', 1),
                 ('DeleteShader', 1), ('AlphaProperty', 1), ('SetParentNode', 2), ('PrettySort', 1), ('Optimize', 1), ('TrimTexturePaths', 1),
                 ('FixBSXFlags', 1), ('FixShaderFlags', 1), ('DeleteUnreferenced', 1), ('OptimizeFor', 1),
-                ('ShapeSetTriangles', 3), ('ShapeSetBounds', 2), ('ShapeToggleColors', 1), ('ShapeUpdateBounds', 2), ('SetTexturePath', 1), ('ReplaceWithClone', 2)]
+                ('ShapeSetTriangles', 3), ('ShapeSetBounds', 2), ('ShapeToggleColors', 1), ('ShapeUpdateBounds', 2), ('SetTexturePath', 1), ('ReplaceWithClone', 2),
+                ('MoveBlocks', 2), ('UnlinkFromNode', 2), ('RebuildRefArray', 2)]
 
 
 def edit_step(rng, tier='quick', allow=None, version_hint=None):
@@ -15,6 +16,8 @@ def edit_step(rng, tier='quick', allow=None, version_hint=None):
     st = {'op': op, 'shape': rng.below(8), 'salt': rng.below(1 << 30)}
     if op == 'DeleteVerts':
         st['verts'] = hist.vert_selector(rng)
+    if op == 'RebuildRefArray':
+        st['prefer_skin'] = rng.chance(0.5)
     if op == 'AddShape':
         spec = hist.shape_spec(rng, version_hint or 'SSE', tier, name='Added%d' % rng.below(1000), allow_kinds=False)
         if spec['nv'] > 400:
